@@ -21,3 +21,18 @@ func VerifByronAddress(root Blake2b224) Address {
 func VerifByronRoot(pub, chain, attrs []byte) (Blake2b224, error) {
 	return computeByronAddressRoot(pub, chain, attrs)
 }
+
+// VerifTrailers exposes the whitelist of historical malformed mainnet address trailers (data).
+func VerifTrailers() [][]byte { return knownMalformedAddressTrailers }
+
+// VerifPointerEncode / VerifPointerDecode expose the pointer varint codec.
+func VerifPointerEncode(slot, tx, cert uint64) []byte {
+	p := AddressPayloadPointer{Slot: slot, TxIndex: tx, CertIndex: cert}
+	return p.encode()
+}
+
+func VerifPointerDecode(data []byte) (AddressPayloadPointer, int, error) {
+	var p AddressPayloadPointer
+	n, err := p.decode(data)
+	return p, n, err
+}
